@@ -607,12 +607,12 @@ def gen_joiner_capture_matrix(pid0):
     return progs
 
 
-JOINER_SPELLINGS = ["jf2", "vrt::probes::jf2::<_, _>", "JPS.j2", "jp().j2", "(|a, b| jf2(a, b))", "mkj()"]
+JOINER_SPELLINGS = ["jf2", "vrt::probes::jf2::<_, _>", "JPS.j2", "jp().j2", "(|a, b| jf2(a, b))", "mkj()", "|a, b| jf2(a, b)", "move |a, b| { jf2(a, b) }"]
 
 
 def gen_joiner_spelling_matrix(pid0):
     """custom_joiner written as something else than a macro: function path, generic path, `receiver.method`, method on a
-    call result, parenthesized closure, call expression, block. Fixed arity 2, so two branches that are active together in
+    call result, parenthesized closure, bare closure (with and without `move`), call expression. Fixed arity 2, so two branches that are active together in
     every joined step; sync kinds only (an async joiner has to await, which only a macro can do at the call site)."""
     progs = []
     pid = pid0
@@ -631,7 +631,7 @@ def gen_joiner_spelling_matrix(pid0):
             progs.append((p, False))
             pid += 1
     # a function joiner with lazy branches: the closures it receives have a new type in every joined step
-    for sp in ("jfl2", "vrt::probes::jfl2::<_, _, _, _>", "(|a, b| jfl2(a, b))"):
+    for sp in ("jfl2", "vrt::probes::jfl2::<_, _, _, _>", "(|a, b| jfl2(a, b))", "|a, b| jfl2(a, b)"):
         for depths in ((2, 2), (3, 3), (3, 2)):
             p = Prog(pid)
             p.joiner = "Lazy"
